@@ -70,6 +70,10 @@ def run(ctx):
         for t2 in TEXTS[:: (9 if ctx.quick else 2)]:
             cases.append((6, t, t2, base + [["op", "with_query", ["map", [t, t2]]]]))
             cases.append((6, t, t2, [["push", build(query=["seq", [t, t2]])]]))
+    code = {"user": 0, "password": 1, "path": 2, "name": 3, "fragment": 4, "query": 5}
+    for comp, t, prog in suites.reapply_cases(base, TEXTS + suites.SELF_TEXTS):
+        if comp != "query" or "#" not in t:
+            cases.append((code[comp], t, "", prog))
     # numbers are supplied as their str(): the '+' of a float exponent is a decoded '+', not a space
     for f in (1e16, 1e20, 1.5e300, -2.5e+17, 1e-7, 0.5, -0.0, 12345678901234567890.0):
         cases.append((6, "k+", str(f), base + [["op", "with_query", ["map", ["k+", ["float", str(f)]]]]]))
